@@ -421,6 +421,13 @@ func c17exec(req c17req) c17resp {
 		switch req.Mode {
 		case "file":
 			it, err = ReadSequencesFromFile(req.Path, OptionsParallelWorkers(2))
+		case "fileimp":
+			// format imposed by the user (--fasta / --fastq): the MIME sniffer is not on the path
+			if strings.Contains(req.Path, ".fastq.") {
+				it, err = ReadFastqFromFile(req.Path, OptionsParallelWorkers(2))
+			} else {
+				it, err = ReadFastaFromFile(req.Path, OptionsParallelWorkers(2))
+			}
 		case "reader":
 			it, err = c17readFromReader(c17newFaultReader(data, req.K, req.ErrKind), OptionsParallelWorkers(2))
 		default:
@@ -1213,14 +1220,14 @@ func TestVerifC17(t *testing.T) {
 		}
 
 		switch c.Driver {
-		case "file", "reader":
+		case "file", "fileimp", "reader":
 			var req c17req
-			if c.Driver == "file" {
+			if c.Driver == "file" || c.Driver == "fileimp" {
 				if err := os.WriteFile(casePath, faulted, 0o644); err != nil {
 					fail("%v", err)
 					return
 				}
-				req = c17req{Mode: "file", Path: casePath, K: -1, Want: b.Want}
+				req = c17req{Mode: c.Driver, Path: casePath, K: -1, Want: b.Want}
 			} else {
 				k := c.Pos
 				if c.Fault == "none" {
@@ -1243,6 +1250,9 @@ func TestVerifC17(t *testing.T) {
 			r.Count("outcome_"+resp.Outcome, 1)
 			r.State(fmt.Sprintf("%s.%s|%s|%s|%s|%d|%v|%s", c.Base, c.Codec, c.Driver, c.Fault, resp.Outcome, resp.NRec, resp.Equal, normMsg(resp.Msg)))
 			drv := "ReadSequencesFromFile"
+			if c.Driver == "fileimp" {
+				drv = "ReadFastxFromFile(imposed-format)"
+			}
 			if c.Driver == "reader" {
 				drv = "Buf+OBIMimeTypeGuesser+ReadFastx(reader)"
 			}
@@ -1436,10 +1446,19 @@ func TestVerifC17(t *testing.T) {
 					if !visit(c17case{Base: bn, Codec: codec, Driver: "file", Fault: "trunc", Pos: p}) {
 						return
 					}
+					if !visit(c17case{Base: bn, Codec: codec, Driver: "fileimp", Fault: "trunc", Pos: p}) {
+						return
+					}
+				}
+				if !visit(c17case{Base: bn, Codec: codec, Driver: "fileimp", Fault: "none"}) {
+					return
 				}
 				if !b.Large {
 					for bit := 0; bit < 8*len(img); bit++ {
 						if !visit(c17case{Base: bn, Codec: codec, Driver: "file", Fault: "flip", Pos: bit}) {
+							return
+						}
+						if bit%4 == 0 && !visit(c17case{Base: bn, Codec: codec, Driver: "fileimp", Fault: "flip", Pos: bit}) {
 							return
 						}
 					}
